@@ -60,6 +60,34 @@ def replay(driver_exe, log, report):
         known = set()
         heap_thread = None
         floating = []              # indices of LATCH events waiting for the model to catch up
+        last_fire_now = {}         # timer -> cached clock reading of the manager pass that fired it last
+
+        def src_check(t, now, canc, what, skip=False):
+            """the extracted source-side model at a recorded source-side call of the library: _dispatch_source_wakeup's test
+               (wake_needed) must hold of the model's timer (the source was invoked for a reason the model knows), and the
+               first applicable action of invoke_step gives the prediction the caller compares with the state after the
+               library's own action (returned: predicted obs_state, or None if not applicable)"""
+            w = d.send("xw %d %d" % (t, canc), True)
+            report["src_wake_checks"] = report.get("src_wake_checks", 0) + 1
+            if w != [1]:
+                probs.append({"key": "trace:wake-needed", "what": "%s of timer %d although Model/TimerRun.v wake_needed is false of its state (no reason to invoke the source)" % (what, t)})
+            if skip:
+                report["src_invoke_skipped"] = report.get("src_invoke_skipped", 0) + 1
+                return None
+            # the model's suspended flag is a parameter supplied at each use (the recorded readings of
+            # DISPATCH_QUEUE_IS_SUSPENDED): invoke2 acting means the source was not suspended at its test
+            d.send("s %d 0" % t)
+            return d.send("xi %d %d %d" % (t, min(max(now, 0), T63 - 1), canc), True)[1:]
+
+        def src_compare(t, pred, what):
+            if pred is None:
+                return
+            report["src_invoke_compared"] = report.get("src_invoke_compared", 0) + 1
+            cur = d.send("S", True)
+            if cur != pred:
+                where = next((k for k in range(min(len(cur), len(pred))) if cur[k] != pred[k]), -1)
+                probs.append({"key": "trace:invoke-step", "what": "%s of timer %d: the library's action leads to a state that differs from Model/TimerRun.v invoke_step's (first difference at obs entry %d: %s vs %s)"
+                              % (what, t, where, cur[where:where + 6], pred[where:where + 6])})
 
         def state():
             return parse_obs(d.send("S", True), nt)
@@ -93,8 +121,8 @@ def replay(driver_exe, log, report):
             t, old = ev[1], ev[3]
             tm = timers[t - 1]
             now = 1
+            hd = None
             if old & 1 and tm[2] < I63:
-                hd = None
                 for j in range(i + 1, min(len(log), i + 400)):
                     if log[j][0] == E_HANDLER and log[j][1] == t and log[j][2] == ev[2]:
                         hd = log[j][3]; break
@@ -111,7 +139,28 @@ def replay(driver_exe, log, report):
                         now = tm[2] if ta >= T63 else max(tm[2], ta - 1)
                     else:
                         now = max(1, tm[2] - 1)
+            if hd is not None and old & 1 and tm[2] < I63:
+                # the reading _dispatch_source_timer_data made lies between the cached reading of the pass that fired the
+                # timer and the handler's own reading of the same clock; the count must be one that a reading in that
+                # bracket produces
+                hrec = next((log[j] for j in range(i + 1, min(len(log), i + 400)) if log[j][0] == E_HANDLER and log[j][1] == t and log[j][2] == ev[2]), None)
+                hi = hrec[4 + tm[1]] if hrec is not None and 0 <= tm[1] < 3 and len(hrec) > 4 + tm[1] else None
+                lo = last_fire_now.get(t, 0)
+                q = hd - (old >> 1) - 1
+                report["handler_brackets"] = report.get("handler_brackets", 0) + 1
+                if hi:
+                    if q < 0:
+                        okb = lo < tm[2]
+                    elif tm[4] < I63:
+                        okb = tm[2] + q * tm[4] <= hi and tm[2] + (q + 1) * tm[4] - 1 >= lo
+                    else:
+                        okb = q == 0 and hi >= tm[2]
+                    if not okb:
+                        probs.append({"key": "trace:handler-data", "what": "handler of timer %d got data %d (accumulated %d, target %d, interval %d): no clock reading between the firing pass (%d) and the handler (%d) gives that count"
+                                      % (t, hd, old >> 1, tm[2], tm[4], lo, hi)})
+            pred = src_check(t, min(now, T63 - 1), 0, "_dispatch_source_latch_and_call", skip=bool(tm[8]))
             r = d.send("l %d %d" % (t, min(now, T63 - 1)), True)
+            src_compare(t, pred, "_dispatch_source_latch_and_call")
             consumed.add(i)
             report["latch"] = report.get("latch", 0) + 1
             # the handler invoked right after reports this count
@@ -182,7 +231,17 @@ def replay(driver_exe, log, report):
                         pass
                     else:
                         probs.append({"key": "trace:guard-configure", "what": "_dispatch_timer_unote_configure on timer %d without a pending configuration in the model" % t})
+                csusp = None
+                for j in range(i + 1, min(n, i + 50)):
+                    if log[j][0] == E_SUSP and log[j][1] == t and log[j][2] == ev[2]:
+                        csusp = log[j][3]; consumed.add(j); break
+                    if log[j][2] == ev[2] and log[j][0] not in (E_CXCHG, E_SUSP):
+                        break
+                pred = src_check(t, 1, 0, "_dispatch_timer_unote_configure", skip=bool(csusp))
+                if csusp is not None:
+                    d.send("s %d %d" % (t, csusp))
                 d.send("f %d" % t)
+                src_compare(t, pred, "_dispatch_timer_unote_configure")
                 report["configure"] = report.get("configure", 0) + 1
                 try_floating()
             elif k == E_RESUME:
@@ -216,13 +275,21 @@ def replay(driver_exe, log, report):
                     probs.append({"key": "trace:resume-state", "what": "at _dispatch_unote_resume timer %d is (armed %d target %d deadline %d interval %d pending %d), the model has (%d %d %d %d %d)"
                                   % (t, armed, ev[4], ev[5], ev[6], pend, tm[0], tm[2], tm[3], tm[4], tm[5])})
                 d.send("s %d %d" % (t, susp))
+                # invoke2 tests DISPATCH_QUEUE_IS_SUSPENDED before the call; a source suspended by then is not resumed by it, one
+                # suspended during the call is (the reading inside _dispatch_timer_unote_needs_rearm): compared only if unsuspended
+                pred = src_check(t, 1, 0, "_dispatch_unote_resume", skip=bool(tm[8] or hascfg or susp))
                 d.send("r %d" % t)
+                src_compare(t, pred, "_dispatch_unote_resume")
                 report["resume"] = report.get("resume", 0) + 1
             elif k == E_UNREGISTER:
                 armed, _, _ = unpack_e(ev[7])
                 if armed:
                     thread_check(ev, "_dispatch_unote_unregister of an armed timer")
+                _, _, timers = state()
+                # (a suspended source is not invoked: its unregistration then comes from the disposal path, not from invoke2)
+                pred = src_check(t, 1, 1, "_dispatch_unote_unregister", skip=False) if timers[t - 1][9] == 1 else None
                 d.send("u %d" % t)
+                src_compare(t, pred, "_dispatch_unote_unregister")
                 report["unregister"] = report.get("unregister", 0) + 1
             elif k == E_DRAIN_BEGIN:
                 thread_check(ev, "_dispatch_event_loop_drain_timers")
@@ -293,6 +360,9 @@ def replay(driver_exe, log, report):
                 mcalls = w[k1 + 1:k2]
                 _, mheaps, mtimers = parse_obs(w[k2 + 2:], nt)
                 report["fires"] = report.get("fires", 0) + len(fires)
+                for (ft, _) in fires:
+                    if 0 <= timers[ft - 1][1] < 3:
+                        last_fire_now[ft] = nows.get(timers[ft - 1][1], 0)
                 bad = None
                 if fin != 1:
                     bad = "the model's pass ran out of fuel"
